@@ -15,7 +15,7 @@ for k in $(seq 0 $((N-1))); do
   unshare -m bash -c "mount --bind $S/repo-$k /repo && mount --bind $S/lock-$k /tmp/repo-mutation.lock && cd $S/tree-$k && tools/seed_part.sh $k $N $PAT" > $S/worker-$k.log 2>&1 &
 done
 wait
-cat $S/tree-*/seeded/REGRESSION.*.txt | grep -v '^DONE' | sed "s|$S/tree-[0-9]*/|/verif/|g" | sort > $V/seeded/REGRESSION${PAT:+.$PAT}.txt
+cat $S/tree-*/seeded/REGRESSION.[0-9]*.txt | grep -v '^DONE' | sed "s|$S/tree-[0-9]*/|/verif/|g" | sort > $V/seeded/REGRESSION${PAT:+.$PAT}.txt
 git -C $V worktree remove --force $S/tree; git -C $V worktree prune
 rm -rf $S
 echo "changes: $(wc -l < $V/seeded/REGRESSION${PAT:+.$PAT}.txt)  not caught: $(grep -c 'caught_by= \[\]' $V/seeded/REGRESSION${PAT:+.$PAT}.txt)  errors: $(grep -c '^ERR' $V/seeded/REGRESSION${PAT:+.$PAT}.txt)"
